@@ -123,3 +123,12 @@ Proof.
   split; [|vm_compute; reflexivity].
   intros i s Hm Hn. vm_compute in Hm. inversion Hm; subst. vm_compute in Hn. inversion Hn; subst. split; reflexivity.
 Qed.
+
+(** CLASS LINK. Every message of a database in the generator-supported class of C11
+    ([in_class43], DESIGN.md 4.3, Gen/ApiSpec.v) satisfies the hypotheses of the C03/C10 theorems:
+    the theorems above apply to every program of that class, not only to the sampled ones. *)
+From CanVerif Require Import Gen.ApiSpec Gen.ClassLink.
+Theorem C10_class_link : forall db m, in_class43 db = true -> In m (db_messages db) ->
+  wf_message m /\ wf_mux m /\ wf_defaults m /\ wf_header m.
+Proof. exact class43_in_theorem_class. Qed.
+Print Assumptions C10_class_link.
